@@ -143,6 +143,16 @@ def queries(n):
 
 def source(ctx, i, rng, d):
     """(netlist, format, description)"""
+    n, ext, what = source_(ctx, i, rng, d)
+    if n is not None and n.name is not None and rng.random() < 0.35:
+        # a netlist need not have a name (only the EDIF writer is documented to default it)
+        del n.name
+        ctx.count("nameless_netlists:%s" % ext)
+        what += " (netlist name absent)"
+    return n, ext, what
+
+
+def source_(ctx, i, rng, d):
     k = i % 9
     if k in (0, 1):
         n = gen_ir.generate(rng, profile="edif", ndefs=rng.randint(2, 7), style="mixed" if k else "simple")
